@@ -263,7 +263,9 @@ class _Inliner:
             if isinstance(n, ast.Call):
                 f = n.func
                 nm = f.id if isinstance(f, ast.Name) else f.attr if isinstance(f, ast.Attribute) else None
-                if nm is not None and (nm == fn.name or nm.endswith(fn.name) and nm.startswith('_')):
+                if nm is not None and (nm == fn.name or (fn.name.startswith('__') and nm.endswith(fn.name)
+                                                         and nm[:len(nm) - len(fn.name)].startswith('_')
+                                                         and '__' not in nm[1:len(nm) - len(fn.name)])):
                     return False
         return True
 
